@@ -139,14 +139,22 @@ fn live_del(i: usize) {
 pub struct Tracking;
 unsafe impl GlobalAlloc for Tracking {
     unsafe fn alloc(&self, l: Layout) -> *mut u8 {
-        let p = System.alloc(l);
-        if SCOPE.load(Relaxed) && !p.is_null() {
-            std::ptr::write_bytes(p, 0xCD, l.size());
-            live_add(p as usize, l.size(), l.align());
-            log(EV_ALLOC, l.size() as u64, l.align() as u64, 0);
-            if l.size() == 0 || l.size() > isize::MAX as usize { log(EV_BAD, 3, l.size() as u64, 0); }
+        if SCOPE.load(Relaxed) {
+            // library allocation (vector storage): tail guard zone behind the block
+            let p = match Layout::from_size_align(l.size().wrapping_add(TAIL_GUARD), l.align()) {
+                Ok(pl) if l.size() <= isize::MAX as usize - TAIL_GUARD => System.alloc(pl),
+                _ => std::ptr::null_mut(),
+            };
+            if !p.is_null() {
+                std::ptr::write_bytes(p, 0xCD, l.size());
+                std::ptr::write_bytes(p.add(l.size()), GUARD_BYTE, TAIL_GUARD);
+                live_add(p as usize, l.size(), l.align());
+                log(EV_ALLOC, l.size() as u64, l.align() as u64, 0);
+                if l.size() == 0 || l.size() > isize::MAX as usize { log(EV_BAD, 3, l.size() as u64, 0); }
+            }
+            return p;
         }
-        p
+        System.alloc(l)
     }
     unsafe fn dealloc(&self, p: *mut u8, l: Layout) {
         if let Some(i) = live_find(p as usize) {
@@ -157,8 +165,12 @@ unsafe impl GlobalAlloc for Tracking {
             if SCOPE.load(Relaxed) {
                 log(EV_DEALLOC, l.size() as u64, l.align() as u64, 0);
             }
-            std::ptr::write_bytes(p, 0xDD, size.min(l.size()));
+            check_tail(p, size);
+            std::ptr::write_bytes(p, 0xDD, size);
             live_del(i);
+            // the block was allocated with its recorded size plus the tail guard
+            System.dealloc(p, Layout::from_size_align_unchecked(size + TAIL_GUARD, align));
+            return;
         }
         System.dealloc(p, l)
     }
@@ -170,21 +182,59 @@ unsafe impl GlobalAlloc for Tracking {
             }
             if new_size == 0 || new_size > isize::MAX as usize { log(EV_BAD, 4, new_size as u64, 0); }
             // always move
-            let nl = Layout::from_size_align_unchecked(new_size, l.align());
-            let np = System.alloc(nl);
+            let np = match Layout::from_size_align(new_size.wrapping_add(TAIL_GUARD), align) {
+                Ok(pl) if new_size <= isize::MAX as usize - TAIL_GUARD => System.alloc(pl),
+                _ => std::ptr::null_mut(),
+            };
             if np.is_null() { return np; }
             std::ptr::write_bytes(np, 0xCD, new_size);
+            std::ptr::write_bytes(np.add(new_size), GUARD_BYTE, TAIL_GUARD);
             std::ptr::copy_nonoverlapping(p, np, size.min(new_size).min(l.size()));
-            std::ptr::write_bytes(p, 0xDD, size.min(l.size()));
+            check_tail(p, size);
+            std::ptr::write_bytes(p, 0xDD, size);
             live_del(i);
-            System.dealloc(p, l);
-            live_add(np as usize, new_size, l.align());
+            System.dealloc(p, Layout::from_size_align_unchecked(size + TAIL_GUARD, align));
+            live_add(np as usize, new_size, align);
             if SCOPE.load(Relaxed) {
                 log(EV_REALLOC, l.size() as u64, new_size as u64, l.align() as u64);
             }
             np
         } else {
             System.realloc(p, l, new_size)
+        }
+    }
+}
+
+const TAIL_GUARD: usize = 256;
+const GUARD_BYTE: u8 = 0xA5;
+unsafe fn check_tail(p: *mut u8, size: usize) {
+    for k in 0..TAIL_GUARD {
+        if *p.add(size + k) != GUARD_BYTE { log(EV_BAD, 24, k as u64, 0); return; }
+    }
+}
+/// after every step: the tail guards of the live library blocks are intact (no write past the
+/// capacity) and no element-sized slot of a block consists of guard bytes or of released-memory
+/// poison (an over-read past the capacity, or a read through a stale pointer, copied into the block)
+pub fn scan_heap(elem: usize) {
+    let t = unsafe { &*SH.live.get() };
+    for i in 0..LIVECAP {
+        let (p, size, _) = t[i];
+        if p == 0 { continue; }
+        let b = p as *mut u8;
+        unsafe {
+            check_tail(b, size);
+            if elem < 2 { continue; }
+            let mut k = 0;
+            let lim = size.min(1 << 16);
+            while k + elem <= lim {
+                let first = *b.add(k);
+                if first == GUARD_BYTE || first == 0xDD {
+                    let mut all = true;
+                    for j in 1..elem { if *b.add(k + j) != first { all = false; break; } }
+                    if all { log(EV_BAD, if first == GUARD_BYTE { 25 } else { 26 }, (k / elem) as u64, 0); return; }
+                }
+                k += elem;
+            }
         }
     }
 }
